@@ -10,8 +10,10 @@ Definition known_names : list str :=
 
 Definition known (name : str) : bool := existsb (fun n => leqb name n) known_names.
 
-(* _handle_<name> does not exist: AttributeError -> ValueError *)
-Theorem unknown_part_valueerror ig name value kw : known name = false -> handle ig name value kw = Err EValue.
+(* _handle_<name> does not exist: AttributeError; caught in _parse_rfc_rrule -> ValueError *)
+Definition catch_pair {A} (r : res A) : res A := catch (catch r [EAttr] EValue) [EKey; EValue] EValue.
+
+Theorem unknown_part_attributeerror ig name value kw : known name = false -> handle ig name value kw = Err EAttr.
 Proof.
   unfold known, known_names. cbn [app existsb list_names]. intro H.
   repeat (apply orb_false_iff in H as [? H]).
@@ -22,27 +24,87 @@ Proof.
   reflexivity.
 Qed.
 
-Definition ev_or_unmodelled (e : err) : Prop := e = EValue \/ e = EUnmodelled.
+Theorem unknown_part_valueerror ig name value kw : known name = false ->
+  catch_pair (handle ig name value kw) = Err EValue.
+Proof. intro H. rewrite (unknown_part_attributeerror ig name value kw H). reflexivity. Qed.
 
-Lemma handle_err ig name value kw e : handle ig name value kw = Err e -> ev_or_unmodelled e.
+Definition ev_or_unmodelled (e : err) : Prop := e = EValue \/ e = EUnmodelled.
+(* the classes a handler can raise: exactly those _parse_rfc_rrule catches (or the input left the model) *)
+Definition handler_class (e : err) : Prop := e = EValue \/ e = EKey \/ e = EAttr \/ e = EUnmodelled.
+
+Lemma split_on_two c : forall x, has_char c x = true -> exists w a t, split_on c x = w :: a :: t.
 Proof.
-  unfold handle, ev_or_unmodelled.
-  repeat match goal with
-  | |- context [if ?b then _ else _] => destruct b
-  | |- context [match ?x with _ => _ end] => destruct x
-  end; intro H; inversion H; auto.
+  induction x as [|y r IH]; [discriminate|]. cbn [has_char existsb split_on]. destruct (y =? c) eqn:E.
+  - intros _. destruct r as [|z r']; cbn [split_on]; [do 3 eexists; reflexivity|].
+    destruct (z =? c); [do 3 eexists; reflexivity|].
+    destruct (split_on c r'); do 3 eexists; reflexivity.
+  - cbn [orb]. intro H. destruct (IH H) as [w [a [t Hs]]]. fold (has_char c r) in H. rewrite Hs.
+    do 3 eexists. reflexivity.
+Qed.
+
+Lemma mk_wd_class_vk w n e : mk_wd_class w n = Some e -> e = EValue \/ e = EKey.
+Proof.
+  unfold mk_wd_class. destruct (wday_of w); [|intro H; inversion H; auto].
+  destruct n as [[| |]|]; intro H; inversion H; auto.
+Qed.
+
+Lemma parse_wd_class_vk x e : parse_wd_class x = Some e -> e = EValue \/ e = EKey.
+Proof.
+  unfold parse_wd_class. destruct (has_char 40 x) eqn:Hc.
+  - destruct (split_on_two 40 x Hc) as [w [a [t ->]]].
+    destruct (py_int (removelast a)); [apply mk_wd_class_vk|intro H; inversion H; auto].
+  - destruct (isnil x); [intro H; inversion H; auto|]. cbv zeta.
+    destruct (isnil (if isnil (snd (span is_signdigit x)) then removelast x else fst (span is_signdigit x)));
+      [apply mk_wd_class_vk|].
+    destruct (py_int _); [apply mk_wd_class_vk|intro H; inversion H; auto].
+Qed.
+
+Lemma first_class_vk : forall l, first_class l = EValue \/ first_class l = EKey.
+Proof.
+  induction l as [|x l IH]; [left; reflexivity|]. cbn [first_class].
+  destruct (parse_wd_class x) eqn:E; [apply (parse_wd_class_vk _ _ E)|exact IH].
+Qed.
+
+Lemma handle_err ig name value kw e : handle ig name value kw = Err e -> handler_class e.
+Proof.
+  unfold handle, handler_class.
+  destruct (leqb name s_INTERVAL); [destruct (py_int value); intro H; inversion H; auto|].
+  destruct (leqb name s_COUNT); [destruct (py_int value); intro H; inversion H; auto|].
+  destruct (leqb name s_FREQ); [destruct (freq_of value); intro H; inversion H; auto|].
+  destruct (leqb name s_UNTIL); [destruct (parse_date ig value); intro H; inversion H; auto|].
+  destruct (leqb name s_WKST); [destruct (wday_of value); intro H; inversion H; auto|].
+  destruct (leqb name s_BYWEEKDAY || leqb name s_BYDAY).
+  { destruct (wd_list value); intro H; inversion H.
+    unfold wd_list_class. destruct (first_class_vk (split_on 44 value)) as [-> | ->]; auto. }
+  destruct (list_index name list_names 0); [destruct (int_list value)|]; intro H; inversion H; auto.
+Qed.
+
+Lemma catch_pair_err {A} (r : res A) e : (forall e', r = Err e' -> handler_class e') ->
+  catch_pair r = Err e -> ev_or_unmodelled e.
+Proof.
+  intros Hc. destruct r as [a|e']; [discriminate|].
+  destruct (Hc e' eq_refl) as [-> | [-> | [-> | ->]]]; cbn; intro H; inversion H; subst;
+    [left|left|left|right]; reflexivity.
 Qed.
 
 (* a pair that does not split into name=value, or whose name is unknown: ValueError; no rule part
-   ever produces another class than ValueError (or leaves the modelled date forms) *)
+   ever produces another class than ValueError (or leaves the modelled date forms): every class a
+   handler raises is one of those the two except clauses of _parse_rfc_rrule turn into ValueError *)
 Theorem handle_pairs_err ig : forall ps kw e, handle_pairs ig ps kw = Err e -> ev_or_unmodelled e.
 Proof.
   induction ps as [|p ps IH]; intros kw e H; [discriminate|].
   cbn [handle_pairs] in H.
   destruct (split_on 61 p) as [|a [|b [|c t]]]; try (inversion H; left; reflexivity).
-  destruct (handle ig (upper a) (upper b) kw) as [kw'|e'] eqn:E.
+  fold (catch_pair (handle ig (upper a) (upper b) kw)) in H.
+  destruct (catch_pair (handle ig (upper a) (upper b) kw)) as [kw'|e'] eqn:E.
   - apply (IH kw' e H).
-  - inversion H; subst. apply (handle_err _ _ _ _ _ E).
+  - inversion H; subst. apply (catch_pair_err _ _ (handle_err ig (upper a) (upper b) kw) E).
+Qed.
+
+Lemma catch_pair_ok {A} (r : res A) a : catch_pair r = Ok a -> r = Ok a.
+Proof.
+  destruct r as [x|e]; [intro H; exact H|]. unfold catch_pair, catch.
+  destruct e; cbn; discriminate.
 Qed.
 
 Theorem handle_pairs_ok_known ig : forall ps kw kw', handle_pairs ig ps kw = Ok kw' ->
@@ -51,7 +113,8 @@ Proof.
   induction ps as [|p ps IH]; intros kw kw' H; [constructor|].
   cbn [handle_pairs] in H.
   destruct (split_on 61 p) as [|a [|b [|c t]]] eqn:Es; try discriminate.
-  destruct (handle ig (upper a) (upper b) kw) as [k1|e'] eqn:E; [|discriminate].
+  fold (catch_pair (handle ig (upper a) (upper b) kw)) in H.
+  destruct (catch_pair (handle ig (upper a) (upper b) kw)) as [k1|e'] eqn:E; [|discriminate].
   constructor; [|apply (IH k1 kw' H)].
   exists a, b. split; [exact Es|].
   destruct (known (upper a)) eqn:K; [reflexivity|].
@@ -73,29 +136,49 @@ Proof.
   destruct (construct_byset i s l b); [discriminate|]. intro H; inversion H; reflexivity.
 Qed.
 
-(* the constructor: TypeError exactly when freq is missing, otherwise ValueError *)
+Lemma first_some_time_class : forall (l : list (option err)), match first_some l with Some e => In (@Some err e) l | None => True end.
+Proof.
+  induction l as [|[x|] l IH]; cbn [first_some]; [exact I|left; reflexivity|].
+  destruct (first_some l); [right; exact IH|exact I].
+Qed.
+
+Lemma timeset_class_vo hs ms ss : timeset_class hs ms ss = EValue \/ timeset_class hs ms ss = EOverflow.
+Proof.
+  unfold timeset_class.
+  pose proof (first_some_time_class (flat_map (fun h => flat_map (fun m => map (fun s => time_class h m s) ss) ms) hs)) as F.
+  destruct (first_some _) as [e|]; [|left; reflexivity].
+  apply in_flat_map in F as [h [_ F]]. apply in_flat_map in F as [m [_ F]]. apply in_map_iff in F as [s0 [F _]].
+  unfold time_class in F. destruct (huge_int h || huge_int m || huge_int s0); [inversion F; right; reflexivity|].
+  destruct (_ && _); inversion F. left; reflexivity.
+Qed.
+
+(* the constructor: TypeError exactly when freq is missing, otherwise ValueError, or OverflowError
+   from datetime.time() for an hour / minute / second beyond 32 bits *)
 Theorem ctor_err ev st kw e : ctor ev st kw = Err e ->
-  (e = EType /\ k_freq kw = None) \/ (e = EValue /\ k_freq kw <> None).
+  (e = EType /\ k_freq kw = None) \/ ((e = EValue \/ e = EOverflow) /\ k_freq kw <> None).
 Proof.
   unfold ctor. destruct (k_freq kw) as [fq|]; [|intro H; inversion H; left; split; reflexivity].
   cbv zeta. intro H. right. split; [|discriminate].
   repeat match type of H with
-  | (if ?b then _ else _) = _ => destruct b; [inversion H; reflexivity|]
+  | (if bad_time _ _ _ _ then _ else _) = _ => destruct (bad_time _ _ _ _); [inversion H; apply timeset_class_vo|]
+  | (if ?b then _ else _) = _ => destruct b; [inversion H; left; reflexivity|]
   | (let '(_, _) := ?x in _) = _ => destruct x
   | (match sub_byset ?a ?b ?c ?d ?k ?f with _ => _ end) = _ =>
       let E := fresh "E" in destruct (sub_byset a b c d k f) as [[? ?]|?] eqn:E;
-      [|apply sub_byset_err in E; inversion H; subst; reflexivity]
+      [|apply sub_byset_err in E; inversion H; subst; left; reflexivity]
   end.
   discriminate.
 Qed.
 
-(* a rule line never fails with another class than ValueError (a missing FREQ part is caught
-   before the constructor is called: "missing FREQ") *)
+(* a rule line never fails with another class than ValueError: a missing FREQ part is caught before
+   the constructor is called ("missing FREQ"), the constructor's OverflowError by the except clause *)
 Theorem parse_rule_err ev ig line st e : parse_rule ev ig line st = Err e -> ev_or_unmodelled e.
 Proof.
   unfold parse_rule. destruct (parse_rrule_kw ig line) as [kw|e'] eqn:E.
   - destruct (isNone (k_freq kw)) eqn:F; intro H; [inversion H; left; reflexivity|].
-    apply ctor_err in H as [[_ Hf]|[-> _]]; [rewrite Hf in F; discriminate|left; reflexivity].
+    destruct (ctor ev st kw) as [r|e'] eqn:C; [discriminate|].
+    apply ctor_err in C as [[_ Hf]|[[-> | ->] _]]; [rewrite Hf in F; discriminate| |];
+      cbn in H; inversion H; left; reflexivity.
   - intro H. inversion H; subst. apply (parse_rrule_kw_err _ _ _ E).
 Qed.
 
@@ -119,7 +202,7 @@ Qed.
 Lemma pdv_dates_err ig tz : forall l e, pdv_dates ig tz l = Err e -> ev_or_unmodelled e.
 Proof.
   induction l as [|x l IH]; intros e H; [discriminate|]. cbn [pdv_dates] in H.
-  destruct (parse_date ig x); [|inversion H; left; reflexivity|inversion H; right; reflexivity].
+  destruct (parse_date ig x); [|inversion H; left; reflexivity|inversion H; left; reflexivity|inversion H; right; reflexivity].
   destruct (negb (tz =? 0) && negb (dtz d =? 0)); [inversion H; left; reflexivity|].
   destruct (pdv_dates ig tz l) eqn:E; [discriminate|]. inversion H; subst. apply IH. reflexivity.
 Qed.
@@ -200,6 +283,17 @@ Example err_no_equals : parse_rrule_kw false (zs "FREQ=DAILY;") = Err EValue. Pr
 Example err_two_equals : parse_rrule_kw false (zs "FREQ=DAILY;COUNT=1=2") = Err EValue. Proof. reflexivity. Qed.
 Example err_bad_int : parse_rrule_kw false (zs "FREQ=DAILY;COUNT=1.5") = Err EValue. Proof. reflexivity. Qed.
 Example err_bad_freq : parse_rrule_kw false (zs "FREQ=NEVER") = Err EValue. Proof. reflexivity. Qed.
+(* the classes before the except clauses *)
+Example cls_bad_freq : handle false (zs "FREQ") (zs "NEVER") kw_empty = Err EKey. Proof. reflexivity. Qed.
+Example cls_unknown : handle false (zs "BYFOO") (zs "1") kw_empty = Err EAttr. Proof. reflexivity. Qed.
+Example cls_byday_key : handle false (zs "BYDAY") (zs "1XX") kw_empty = Err EKey. Proof. reflexivity. Qed.
+Example cls_byday_zero : handle false (zs "BYDAY") (zs "0MO") kw_empty = Err EValue. Proof. reflexivity. Qed.
+Example cls_until_overflow : parse_date_res false (zs "99999999999999999999") = Err EOverflow
+  /\ handle false (zs "UNTIL") (zs "99999999999999999999") kw_empty = Err EValue. Proof. split; reflexivity. Qed.
+Example cls_time_overflow :
+  ctor (mkenv 0 (mkdt 2000 1 1 0 0 0 0 0)) None (set_list 6 [99999999999999999999] (set_freq 3 kw_empty)) = Err EOverflow
+  /\ parse_rule (mkenv 0 (mkdt 2000 1 1 0 0 0 0 0)) false (zs "FREQ=DAILY;BYHOUR=99999999999999999999") None = Err EValue.
+Proof. split; vm_compute; reflexivity. Qed.
 Example err_byday_zero : parse_rrule_kw false (zs "FREQ=DAILY;BYDAY=0MO") = Err EValue. Proof. reflexivity. Qed.
 Example err_byday_empty : parse_rrule_kw false (zs "FREQ=DAILY;BYDAY=") = Err EValue. Proof. reflexivity. Qed.
 Example err_until_range : parse_rrule_kw false (zs "FREQ=DAILY;UNTIL=20001301") = Err EValue. Proof. reflexivity. Qed.
